@@ -82,6 +82,12 @@ impl TableDP {
             if !imp[k * b + bb] { tab[(k * b + bb) * d] = Some((bb, 0)); continue; }
             for dd in 0..d { if !rng.chance(dead, 100) { tab[(k * b + bb) * d + dd] = Some((rng.below(b as u64) as usize, rng.range(cost_lo, 4) as isize)); } }
         }}
+        // long arcs: sometimes a whole layer is a dead end for the states its variable impacts (all their entries are missing),
+        // so that every surviving route skips that layer: bottom-up passes must not stop at a layer without a live node
+        if long_arcs && n >= 3 && rng.chance(1, 4) {
+            let k = rng.range(1, n as i64 - 1) as usize;
+            for bb in 0..b { if imp[k * b + bb] { for dd in 0..d { tab[(k * b + bb) * d + dd] = None; } } }
+        }
         let mut t = TableDP { n, b, d, embed: !long_arcs && rng.chance(1, 2), relax_mode: rng.below(2) as usize, rub_mode: *rng.pick(&[0usize, 0, 0, 1, 2, 2]),
             rank_mode: if rng.chance(1, 6) { 1 } else { 0 }, dom_mode: if rng.chance(1, 4) { 1 } else { 0 }, slack: rng.range(0, 2) as isize, init_val: if rng.chance(1, 2) { 0 } else { rng.range(-4, 9) as isize }, tab, imp, hstar: vec![] };
         t.compute_hstar();
